@@ -8,6 +8,11 @@ CLAIMED = {
   ref="DESIGN.md §7 C01",
   note="Trusted: Coq kernel, translator translate/t_opcodes.py, hand model of the Token::Instruction arm and operand-form mapping (validated by correspondence), extraction (ExtrOcamlBasic only), mosprobe. Neighbour independence is decided on the implementation by the exhaustive pair sweep. Known finding: branch to address 0 (F-C01b).",
   technique="Rocq proof over translated opcode table + extracted-model correspondence"),
+ "C03": dict(
+  text="Machine-checked proof (Coq) that the evaluator model -- running the operator table, flag order, modifier masks and literal conversion TRANSLATED from evaluator.rs/ast.rs on every run -- computes ordinary integer arithmetic for every expression tree of the numeric language inside the property's domain (structural induction, unbounded depth and values), that literals are sum digit*radix^i, `!-x` is NOT(NEG x), and that .byte/.word/.dword emit the low bytes little-endian. Precedence/associativity is tied by running the character-level Coq model of the expression grammar (operator tables translated from parser/mod.rs) and the real parser on generated texts (trees compared), and the bytes of `.dword <expr>` are compared with the extracted spec.",
+  ref="DESIGN.md §7 C03",
+  note="Trusted: Coq kernel, translators t_evaluator.py/t_grammar.py, hand model of the evaluator and of the expression grammar (validated by correspondence), extraction, mosprobe. The parser/printer round trip is not yet a theorem (decided by correspondence of the two parsers); petscii/petscreen encodings are not modelled yet.",
+  technique="Rocq proof (structural induction over expression trees) + translated operator tables + extracted-model correspondence"),
  "C09": dict(
   text="Machine-checked proof (Coq) over a model of Bank::merge / merge_segments / write_banks / prg_header: for ALL segment lists the bank image is pointwise the last-defined covering segment else fill, spans min..max, sized banks are padded exactly or rejected, errors are exactly the listed conditions, files are the per-filename concatenation, prg header is the little-endian start. Tied to the code by running the extracted model and the extracted pointwise spec against `mos build` (every file byte for byte) and merge_segments (mosprobe) on generated bank/segment configurations.",
   ref="DESIGN.md §7 C09",
